@@ -83,6 +83,7 @@ BOUNDS = {
         "attrs": "15 multi-expression tags x placements {body, def, anonymous block, call body} x {all present, each name absent} x strict on/off",
         "cached": "6 cached sections x 4 key forms x 4 render sequences x strict on/off",
         "rebind": "9 value sequences of 4 steps (equal objects of different type, equal containers, controls) x first binding {<% %>, page argument, render argument} x call form {${f()}, capture(f), <%call>, inside % for} x strict on/off; + in-place mutation, augmented assignment and other-name sequences; each Template rendered twice",
+        "nsdef": "reads in a def written inside <%namespace name=>: 2 names (plain, builtin) x 10 subsets of {module block, imports=, render argument, body assignment} x 5 shapes x strict on/off; UNDEFINED / STOP_RENDERING probes x 5 shapes x strict on/off",
         "imports": "one sequence per run: 28 reader operations, 20 binder operations, the readers again, the binders again (96 operations in one process)",
         "flagname": "24 read sites x 10 spellings (9 escape-flag names + control) x {present, absent} x strict on/off, minus str-present",
     },
@@ -97,6 +98,7 @@ BOUNDS = {
         "attrs": "15 multi-expression tags x placements {body, def, anonymous block, call body} x {all present, each name absent} x strict on/off",
         "cached": "6 cached sections x 4 key forms x 4 render sequences x strict on/off",
         "rebind": "9 value sequences of 4 steps (equal objects of different type, equal containers, controls) x first binding {<% %>, page argument, render argument} x call form {${f()}, capture(f), <%call>, inside % for} x strict on/off; + in-place mutation, augmented assignment and other-name sequences; each Template rendered twice",
+        "nsdef": "reads in a def written inside <%namespace name=>: 2 names (plain, builtin) x 10 subsets of {module block, imports=, render argument, body assignment} x 5 shapes x strict on/off; UNDEFINED / STOP_RENDERING probes x 5 shapes x strict on/off",
         "imports": "one sequence per run: 28 reader operations, 20 binder operations, the readers again, the binders again (96 operations in one process)",
         "flagname": "24 read sites x 10 spellings (9 escape-flag names + control) x {present, absent} x strict on/off, minus str-present",
     },
@@ -1726,6 +1728,112 @@ def check_rebind(al, c, st):
 
 
 # --------------------------------------------------------------------------
+# family nsdef: reads inside a def written in a <%namespace name=...> tag (a callable of its own, reached as ns.f(); it
+# is no closure of the body).  Sources: module-level <%! %> assignment, Template(imports=), render argument, builtin; the
+# body's <% %> assignment of the same name is a distractor (not visible: the def is not called by bare name).
+# Also the reserved module-level names UNDEFINED and STOP_RENDERING.  Formula oracle.
+
+NSDEF_SUBSETS = [(), ("module",), ("imports",), ("ctx",), ("module", "ctx"), ("imports", "ctx"), ("module", "imports"), ("assign",), ("assign", "ctx"), ("assign", "module")]
+NSDEF_SHAPES = ["plain", "with-import-star-namespace", "two-defs", "nested-in-nsdef", "control-line"]
+
+
+def nsdef_cases(al):
+    for names in (al.name, al.builtin):
+        for sub in NSDEF_SUBSETS:
+            for shape in NSDEF_SHAPES:
+                for strict in (False, True):
+                    yield {"kind": "name", "name": names, "binds": list(sub), "shape": shape, "strict": strict}
+    for shape in NSDEF_SHAPES:
+        for probe in ("UNDEFINED-identity", "UNDEFINED-as-default", "STOP_RENDERING-return", "STOP_RENDERING-identity"):
+            for strict in (False, True):
+                yield {"kind": "reserved", "probe": probe, "shape": shape, "strict": strict}
+
+
+def check_nsdef(al, c, st):
+    import builtins
+    from mako.lookup import TemplateLookup
+    from mako import runtime
+
+    shape, strict = c["shape"], c["strict"]
+    head, kw, ctx = "", {}, {"sh": env.show}
+    if c["kind"] == "name":
+        n = c["name"]
+        binds = c["binds"]
+        if "module" in binds:
+            head += "<%%! %s = 'M%s' %%>" % (n, al.sfx)
+        if "imports" in binds:
+            kw["imports"] = ["%s = 'N%s'" % (n, al.sfx)]
+        if "ctx" in binds:
+            ctx[n] = "C" + al.sfx
+        pre = "<%% %s = 'A%s' %%>" % (n, al.sfx) if "assign" in binds else ""
+        inner = "[${sh(%s)}]" % n
+        isb = n in builtins.__dict__
+        if "module" in binds:
+            exp = ("out", "[M%s]" % al.sfx)
+        elif "imports" in binds:
+            exp = ("out", "[N%s]" % al.sfx)
+        elif "ctx" in binds:
+            exp = ("out", "[C%s]" % al.sfx)
+        elif isb:
+            exp = ("out", "[%s]" % env.show(builtins.__dict__[n]))
+        elif strict:
+            exp = ("exc", "NameError", "'%s' is not defined" % n, [n])
+        else:
+            exp = ("out", "[U]")
+        if "module" in binds and "imports" in binds:
+            exp = None  # which of two module-level bindings is the later one is not fixed by the statement
+    else:
+        pre = ""
+        inner, out = {
+            "UNDEFINED-identity": ("[${UNDEFINED is witness_u}]", "[True]"),
+            "UNDEFINED-as-default": ("[${sh(context.get('zz_absent', UNDEFINED))}]", "[U]"),
+            "STOP_RENDERING-return": ("[a<% return STOP_RENDERING %>b]", "[a"),
+            "STOP_RENDERING-identity": ("[${STOP_RENDERING is witness_s}]", "[True]"),
+        }[c["probe"]]
+        ctx["witness_u"] = runtime.UNDEFINED
+        ctx["witness_s"] = runtime.STOP_RENDERING
+        exp = ("out", out)
+    files = {}
+    nsattr = ""
+    if shape == "with-import-star-namespace":
+        files["/lib.html"] = '<%def name="libdef()">L</%def>'
+        head += '<%namespace file="/lib.html" import="*"/>'
+        body_def = '<%def name="nf()">' + inner + "</%def>"
+    elif shape == "two-defs":
+        body_def = '<%def name="other()">o</%def><%def name="nf()">' + inner + "</%def>"
+    elif shape == "nested-in-nsdef":
+        body_def = '<%def name="nf()"><%def name="deep()">' + inner + "</%def>${deep()}</%def>"
+    elif shape == "control-line":
+        body_def = '<%def name="nf()">\n% if True:\n' + inner + "\n% endif\n</%def>"
+    else:
+        body_def = '<%def name="nf()">' + inner + "</%def>"
+    src = head + '<%namespace name="nsx"' + nsattr + ">" + body_def + "</%namespace>" + pre + "${nsx.nf()}"
+    files["/main.html"] = src
+    st.evaluations += 1
+    st.transitions += 1
+    st.traces += 1
+    st.oracles["nsdef"] += 1
+    try:
+        lk = TemplateLookup(strict_undefined=strict, **kw)
+        for u, t_ in files.items():
+            lk.put_string(u, t_)
+        obs = ("out", "".join(lk.get_template("/main.html").render_unicode(**ctx).split("\n")))
+    except Exception as e:  # noqa
+        obs = ("exc", type(e).__name__, str(e))
+    if exp is None:
+        st.outcomes[("nsdef", "dont-care")] += 1
+        return
+    ok = agrees(exp, obs, strict)
+    st.outcomes[("nsdef", c["kind"], "ok" if ok else "differs")] += 1
+    if not ok:
+        what = "+".join(c["binds"]) or "unbound" if c["kind"] == "name" else c["probe"]
+        sig = "nsdef:%s:%s:obs=%s" % (c["kind"], what, obs[1] if obs[0] == "exc" else "out")
+        st.violation(sig, {"fam": "nsdef", "c": c, "seed": al.seed, "template": files}, "names read in a def written inside <%namespace> (formula)", expected=list(exp), observed=list(obs))
+    if st.traces % 67 == 1:
+        st.sample({"fam": "nsdef", "c": c, "template": files, "expected": list(exp)})
+
+
+# --------------------------------------------------------------------------
 # jobs
 
 
@@ -1742,6 +1850,7 @@ def plan(tier, seed):
     jobs += [{"kind": "attrs", "tier": tier, "seed": seed, "shard": i, "nshards": 2} for i in range(2)]
     jobs.append({"kind": "cached", "tier": tier, "seed": seed})
     jobs.append({"kind": "rebind", "tier": tier, "seed": seed})
+    jobs.append({"kind": "nsdef", "tier": tier, "seed": seed})
     return jobs
 
 
@@ -1797,9 +1906,9 @@ def _run_job(job, st):
         st.extra["kwargs_cases"] = st.states
     elif kind == "imports":
         run_imports_family(al, st)
-    elif kind in ("sentinel", "attrs", "cached", "rebind"):
-        gen = {"sentinel": lambda: sentinel_cases(al), "attrs": attrs_cases, "cached": cached_cases, "rebind": rebind_cases}[kind]()
-        fn = {"sentinel": check_sentinel, "attrs": check_attrs, "cached": check_cached, "rebind": check_rebind}[kind]
+    elif kind in ("sentinel", "attrs", "cached", "rebind", "nsdef"):
+        gen = {"sentinel": lambda: sentinel_cases(al), "attrs": attrs_cases, "cached": cached_cases, "rebind": rebind_cases, "nsdef": lambda: nsdef_cases(al)}[kind]()
+        fn = {"sentinel": check_sentinel, "attrs": check_attrs, "cached": check_cached, "rebind": check_rebind, "nsdef": check_nsdef}[kind]
         n = 0
         for i, c in enumerate(gen):
             if i % job.get("nshards", 1) != job.get("shard", 0):
@@ -1821,7 +1930,7 @@ def _run_job(job, st):
 
 def post(tier, seed, st):
     walls = st.extra.pop("job_walls", [])
-    for k in ("res", "stmt", "reread", "reserved", "kwargs", "flagname", "imports", "sentinel", "attrs", "cached", "rebind"):
+    for k in ("res", "stmt", "reread", "reserved", "kwargs", "flagname", "imports", "sentinel", "attrs", "cached", "rebind", "nsdef"):
         st.extra.pop("job_wall_max_s_" + k, None)
     st.extra["slowest_job_wall_s"] = max([w[2] for w in walls] or [0])
     st.extra["alphabet"] = {k: v for k, v in Alpha(seed).__dict__.items()}
@@ -1841,8 +1950,8 @@ def replay(case):
         check_kwargs(case["c"], st)
     elif fam == "flagname":
         check_flag(Alpha(case["seed"]), case["c"], st)
-    elif fam in ("sentinel", "attrs", "cached", "rebind"):
-        {"sentinel": check_sentinel, "attrs": check_attrs, "cached": check_cached, "rebind": check_rebind}[fam](Alpha(case["seed"]), case["c"], st)
+    elif fam in ("sentinel", "attrs", "cached", "rebind", "nsdef"):
+        {"sentinel": check_sentinel, "attrs": check_attrs, "cached": check_cached, "rebind": check_rebind, "nsdef": check_nsdef}[fam](Alpha(case["seed"]), case["c"], st)
     elif fam == "imports":
         r = check_imports_op(Alpha(case["seed"]), case["op"], st)
         if r is not None:
